@@ -273,7 +273,11 @@ def check_announced(model, rep):
     ok = len(calls) == 1 and len(calls[0].args) == 2
     if ok:
         # the substituted table, whatever it is called: every parsed replacement, lowered without point axes, under its own name
-        ok = pmatch('{N_: V_.lower(args.without_points) for N_, V_ in self._replacements.items()}', deep_resolved(lower.node, calls[0].args[1])) is not None
+        table = calls[0].args[1]
+        # between lowering and substitution the table may pass through evaluable.disjoint_loop_ids(target, table) (renames clashing loops, keeps names and values)
+        binds = [s_.value for s_ in find_stmts(lower.body, lambda s_: isinstance(s_, ast.Assign) and len(s_.targets) == 1 and src(s_.targets[0]) == src(table))] if isinstance(table, ast.Name) else [table]
+        ok = any(pmatch('{N_: V_.lower(args.without_points) for N_, V_ in self._replacements.items()}', b) is not None for b in binds) and \
+            all(pmatch('{N_: V_.lower(args.without_points) for N_, V_ in self._replacements.items()}', b) is not None or pmatch('evaluable.disjoint_loop_ids(A_, T_)', b) is not None for b in binds)
     rep.ob('R13.5', lower.key, lower.where(), ok, 'lower() substitutes exactly the parsed replacements, lowered without point axes' if ok else
            '_Replace.lower does not substitute self._replacements lowered with args.without_points', statement='lower-substitutes')
     # the announced table: unreplaced = arguments of arg minus keys of self._replacements, joined with the replacements' arguments
@@ -386,6 +390,32 @@ def check_exact_pruning(model, rep):
            f'`{src(tol[0])[:70]}` compares against a small tolerance inside factor(): the decomposition into monomials is exact algebra', statement='no-tolerance')
 
 
+def check_capture_avoiding_replace(model, rep):
+    """R13.10: _Replace.lower lowers the replacement values OUTSIDE the loops of its operand; an integral that replaces an argument of another integral gets the
+    same loop id as the integral it ends up in (`_sample_<depth>`), and the simplifier identifies two nested loops with one id.  Before substitution the
+    loops of the values must be made disjoint from those of the operand: the table handed to evaluable.replace_arguments passes through
+    evaluable.disjoint_loop_ids(<lowered operand>, table), and that helper renames exactly the ids that occur in both."""
+    c = model.cls('function:_Replace')
+    lower = c.members['lower'].func
+    calls = [x for x in calls_in(lower.node) if src(x.func) == 'evaluable.replace_arguments' and len(x.args) == 2]
+    dis = [x for x in calls_in(lower.node) if src(x.func) == 'evaluable.disjoint_loop_ids' and len(x.args) == 2]
+    ok = len(calls) == 1 and len(dis) == 1
+    if ok:
+        target, table = calls[0].args
+        asg = [s_ for s_ in find_stmts(lower.body, lambda s_: isinstance(s_, ast.Assign) and s_.value is dis[0])]
+        ok = len(asg) == 1 and src(asg[0].targets[0]) == src(table) and src(dis[0].args[0]) == src(target) and asg[0].lineno < calls[0].lineno
+    rep.ob('R13.10', lower.key, lower.where(), ok, 'the lowered replacements are made loop-disjoint from the lowered operand before they are substituted' if ok else
+           '_Replace.lower substitutes replacement values whose loops may carry the id of a loop of the operand: replacing an argument of an integral by another integral over the same sample nests two loops with one '
+           'index, and the simplified expression has another value (694.6 becomes 2275.2 in findings/F43)', statement='capture-avoiding-replace')
+    h = model.functions.get('evaluable:disjoint_loop_ids')
+    ok2 = False
+    if h is not None:
+        t = src(h.node)
+        ok2 = 'target._loops' in t and '_loops' in t.replace('target._loops', '') and '&' in t and '_replace_loop_ids(' in t and 'not in taken' in t and 'not in used' in t
+    rep.ob('R13.10', 'evaluable:disjoint_loop_ids', h.where() if h is not None else lower.where(), ok2, 'disjoint_loop_ids renames the loop ids that occur in both, to ids that occur in neither' if ok2 else
+           'evaluable.disjoint_loop_ids is missing or no longer renames the ids common to target and values to fresh ones', statement='disjoint-loop-ids')
+
+
 def check_monomial_ravel(model, rep, rule='R13.7'):
     """Monomial._derivative scatters the derivative of the polynomial with respect to one argument through the ravelled multi-index
     of that argument: Inflate(Diagonalize(m), ravel_index, ravel_length) followed by unravel(..., arg.shape).  unravel is row-major,
@@ -447,6 +477,8 @@ def run(model, rep, tier):
     check_monomial_ravel(model, rep)
     rep.rule('R13.8', 'factor() prunes coefficients only where they are exactly zero (no magnitude threshold)')
     check_exact_pruning(model, rep)
+    rep.rule('R13.10', 'replacement values are made loop-disjoint from the operand before substitution (capture-avoiding replace)')
+    check_capture_avoiding_replace(model, rep)
     rep.rule('R13.9', 'every name loaded in function.py resolves (symtable)')
     from rules import names as _names
     _names.check(model, rep, 'R13.9', ('function',), 280)
